@@ -20,8 +20,9 @@ def arrowhead_into(graph, u, v):
 
 
 def plain_arrow(graph, u, v):
-    # u -> v and no bidirected edge between them
-    return graph.directed.has_edge(u, v) and not graph.undirected.has_edge(u, v)
+    # a walk is a sequence of EDGES: it can leave u by a directed edge u -> v whenever there is one -- a bidirected edge u <-> v next to it
+    # (a "bow") gives the walk a second choice for this step, it does not take the first away
+    return graph.directed.has_edge(u, v)
 
 
 def collider(graph, left, middle, right, conditions):
